@@ -2155,6 +2155,29 @@ def emit_stage(ctx, vlib) -> None:
             tops = sorted({m.group(1) for l in src for m in [re.match(r"(?:def |class )?(\w+)", l)] if m and not l.startswith((" ", "@", "if", "else"))} - {"def", "class"})
             all_ = [t for t in tops if rng.random() < 0.6] or tops[:1]
         mods.append((f"em{i:03d}", src, coq, ip, all_))
+    # FIXED directed shard (every tier, every seed, independent of the RNG): a decorated definition that is SKIPPED because the
+    # name is already recorded must not leave its decorators behind for the next emitted function
+    dc = '(mkDeco "dc0" true false)'
+    cm = '(mkDeco "contextlib" true false)'
+    directed = [
+        (["if KCOND:", "    @dc0", "    def locked(): pass", "else:", "    @dc0", "    def locked(): pass", "def after(): pass"],
+         [f'IIf [IFunc "locked" [{dc}] []] [IFunc "locked" [{dc}] []]', 'IFunc "after" [] []']),
+        (["import contextlib", "if KCOND:", "    @contextlib.contextmanager", "    def locked(): yield 1", "else:", "    @contextlib.contextmanager",
+          "    def locked(): yield 2", "def after(): pass", "@dc0", "def last(): pass"],
+         [f'IIf [IFunc "locked" [{cm}] []] [IFunc "locked" [{cm}] []]', 'IFunc "after" [] []', f'IFunc "last" [{dc}] []']),
+        (["def f(): pass", "sep1 = 1", "@dc0", "def f(): pass", "def g(): pass"],
+         ['IFunc "f" [] []', 'IVar "sep1" false VPlain []', f'IFunc "f" [{dc}] []', 'IFunc "g" [] []']),
+        (["import contextlib", "def f(): pass", "sep1 = 1", "@contextlib.contextmanager", "def f(): yield 1", "class After:", "    pass", "def g(): pass"],
+         ['IFunc "f" [] []', 'IVar "sep1" false VPlain []', f'IFunc "f" [{cm}] []', 'IClass "After" [] []', 'IFunc "g" [] []']),
+        (["v1 = 1", "@dc0", "@dcall(1)", "def v1(): pass", "def g(): pass"],
+         ['IVar "v1" false VPlain []', f'IFunc "v1" [{dc}; (mkDeco "dcall" false false)] []', 'IFunc "g" [] []']),
+        (["class C:", "    if KCOND:", "        @property", "        def p(self): return 1", "    else:", "        @property", "        def p(self): return 2",
+          "    def q(self): pass", "if KCOND:", "    @dc0", "    def h(): pass", "else:", "    @dc0", "    def h(): pass", "class D:", "    def m(self): pass"],
+         ['IClass "C" [] [IIf [IFunc "p" [(mkDeco "property" true false)] []] [IFunc "p" [(mkDeco "property" true false)] []]; IFunc "q" [] []]',
+          f'IIf [IFunc "h" [{dc}] []] [IFunc "h" [{dc}] []]', 'IClass "D" [] [IFunc "m" [] []]']),
+    ]
+    for k, (dsrc, dcoq) in enumerate(directed):
+        mods.append((f"emd{k:02d}", dsrc, dcoq, False, None))
     tmp = tempfile.mkdtemp(prefix="c19emit-")
     stubs: dict[tuple[str, str], str] = {}
     try:
